@@ -9,7 +9,7 @@ CLAIMED = {
         category="exploration",
         design_ref="DESIGN.md 3.5",
         technique="deterministic simulation: seeded search over delivery orders, duplications and merge trees of best_match reductions across replicas",
-        text="Seeded simulation of R replicas that reduce a candidate multiset with the real Pattern::best_match under scripted delivery order, duplicate/late deliveries and a scripted merge tree; per-step invariants (None iff neither matches, result is one of the arguments and matches, argument-order independence) and an end-of-history convergence check against an independent max-under-order fold. Sampling, not enumeration: a clean batch is evidence that the reduction is order-, grouping- and duplication-independent on the schedules explored.",
+        text="Seeded simulation of R replicas that reduce a candidate multiset with the real Pattern::best_match under scripted delivery order, duplicate/late deliveries and a scripted merge tree; per-step invariants (None iff neither matches, result is one of the arguments and matches, argument-order independence) an end-of-history convergence check against an independent max-under-order fold, and - on the numeric sub-domain of versions (digit runs below 2^63, '.', '_', ignored characters, trailing nb<N>) - an independent model of the dewey rule that fixes the winner of each pair. Sampling, not enumeration: a clean batch is evidence that the reduction is order-, grouping- and duplication-independent on the schedules explored.",
         note="Claims the history clause of C06 (plus the per-pair clauses as invariants of the same runs). The version order used by the reference fold is the one the library itself exposes through single-bound patterns; whether that order equals pkg_install's is C01 (not claimed). Candidates with pattern metacharacters in the version are not generated.",
     ),
     "C07": dict(
@@ -23,42 +23,42 @@ CLAIMED = {
         category="fault_enumeration",
         design_ref="DESIGN.md 3.1",
         technique="deterministic simulation with fault injection: the simulator owns the partition of the byte stream into write calls and the upstream reader's short reads, EINTR, errors and EOF",
-        text="Seeded pkg_summary streams generated from a reference model are delivered to a real SummaryStream through a scripted Write seam (direct chunked writes, or std::io::copy from a scripted reader): random, fixed-size, byte-at-a-time partitions and partitions biased into in-flight state (inside multi-byte characters, inside the blank-line separator, after '='), zero-length writes; for small streams every single cut position is swept. Invariants after every write (Ok(len), entries is a growing prefix of the model) and end-of-history equality with the model, the single-write run and the original text; malformed entries at first/middle/last position must fail with InvalidData no later than the completing write with exactly the preceding entries collected.",
+        text="Seeded pkg_summary streams generated from a reference model are delivered to a real SummaryStream through a scripted Write seam (direct chunked writes, or std::io::copy from a scripted reader): random, fixed-size, byte-at-a-time partitions and partitions biased into in-flight state (inside multi-byte characters, inside the blank-line separator, after '='), zero-length writes, streams of 150-320 entries (80-200 KiB) in one write or 64/100 KiB chunks; the consumer may clone the stream object mid-delivery, drain entries_mut() between writes or start from Default; for small streams every single cut position and every fixed chunk size 1..64 are swept, and for shortened streams every pair of cuts. Invariants after every write (Ok(len), entries is a growing prefix of the model) and end-of-history equality with the model, the single-write run and the original text; malformed entries at first/middle/last position must fail with InvalidData no later than the completing write with exactly the preceding entries collected.",
         note="Streams are canonical prints of model entries (values without CR/LF). After an injected upstream hard error or early EOF only the prefix invariant is required (the property is silent about truncated streams).",
     ),
     "C12": dict(
         category="fault_enumeration",
         design_ref="DESIGN.md 3.6",
         technique="deterministic simulation with storage-fault injection: bit flips, torn/extended/replaced/lost/swapped files and corrupted records between verification rounds, against an independent digest reference",
-        text="Per run a scratch directory holds 1..5 generated distfiles and patch files with a distinfo recorded for them (written from the harness model or built through the API); a seeded sequence of storage faults (bit flip, byte set, truncate, extend, zero-fill, same-length replacement, delete, swap, corrupted recorded hash/size, dropped record line, and the benign $NetBSD-line rewrite / final-newline changes for patches) is applied between verification rounds, and after every round verify_size / verify_checksum / verify_checksums / find_entry are compared, for every file, all six algorithms and several lookup paths, with the verdict computed from the model bytes by independent one-shot digests and an independent $NetBSD filter. For small files every byte offset is bit-flipped in a sweep.",
+        text="Per run a scratch directory holds 1..5 generated distfiles and patch files with a distinfo recorded for them (written from the harness model or built through the API); a seeded sequence of storage faults (bit flip, byte set, truncate, extend, zero-fill, same-length replacement, delete, swap, corrupted recorded hash/size, dropped record line, and the benign $NetBSD-line rewrite / final-newline changes for patches) is applied between verification rounds, and after every round verify_size / verify_checksum / verify_checksums / find_entry (Distinfo-level and Entry-level, also on a clone, also against the same bytes stored under a name of the other kind) are compared, for every file (names may be non-UTF-8), all six algorithms and several lookup paths, with the verdict computed from the model bytes by independent one-shot digests and an independent $NetBSD filter. When the record is built through the API, lookups are interleaved with every insert. For small files every byte offset is bit-flipped in a sweep.",
         note="The kernel file system is real (the library opens paths itself and has no FS trait), so read-level EIO cannot be injected here; that part is covered through the reader seam in C13. Path fields inside errors are not compared. No algorithm is recorded twice for one file.",
     ),
     "C13": dict(
         category="fault_enumeration",
         design_ref="DESIGN.md 3.2",
         technique="deterministic simulation with fault injection on the io::Read seam: scripted read sizes, EINTR, hard errors and early EOF, against an independent digest reference",
-        text="Every Read::read call made by hash_file / hash_patch is served by a scripted reader: full, 1-byte, random short, fixed-size and boundary-biased reads (ending inside/around each $NetBSD marker, newline and hash block boundary), EINTR anywhere (also consecutive, first call, and the call that would report EOF), one hard error of seven kinds, or early EOF. The result must equal the RustCrypto one-shot digest (pinned by published known-answer vectors) of the bytes - for patches of the independently filtered bytes - regardless of the schedule; a hard error must surface as Err of that kind, never a hash; the number of read calls is bounded. For inputs of at most 300 bytes every single split position and a fault at every call index are swept.",
+        text="Every Read::read call made by hash_file / hash_patch is served by a scripted reader: full, 1-byte, random short, fixed-size and boundary-biased reads (ending inside/around each $NetBSD marker, newline and hash block boundary), EINTR anywhere (also consecutive, storms of hundreds, first call, and the call that would report EOF), one hard or persistent error of seven kinds, or early EOF; lines up to 70 KB; optionally an earlier call on the same thread. The result must equal the RustCrypto one-shot digest (pinned by published known-answer vectors) of the bytes - for patches of the independently filtered bytes - regardless of the schedule; a hard error must surface as Err of that kind, never a hash; the number of read calls is bounded. For inputs of at most 300 bytes every single split position and a fault at every call index are swept.",
         note="Equality with 'the standard algorithm' is equality with RustCrypto's one-shot implementation pinned by known-answer vectors for four inputs per algorithm. Name parsing is checked over ASCII case patterns only.",
     ),
     "C16": dict(
         category="fault_enumeration",
         design_ref="DESIGN.md 3.3",
         technique="deterministic simulation with fault injection on the io::BufRead seam: scripted fill_buf chunks, EINTR, hard errors and early EOF, against a record-list reference model",
-        text="pbulk-index streams generated from a reference record model are read by the real ScanIndex::from_reader through a scripted BufRead (chunks ending anywhere, including inside multi-byte characters and right after 'PKGNAME=') or BufReader::with_capacity over a scripted reader; EINTR anywhere, one hard error at any call (swept over every call index for small inputs), early EOF. Fault-free and EINTR/short-read-only runs must return exactly the model's records field by field; content faults (block without PKGNAME, bad dependency, bad location) and hard I/O errors must fail the whole read - never a partial or shifted list.",
+        text="pbulk-index streams generated from a reference record model are read by the real ScanIndex::from_reader through a scripted BufRead (chunks ending anywhere, including inside multi-byte characters and right after 'PKGNAME=') or BufReader::with_capacity over a scripted reader; EINTR anywhere, one hard or persistent error at any call (swept over every call index for small inputs), early EOF; lines of 70-100 KB. Fault-free and EINTR/short-read-only runs must return exactly the model's records field by field; content faults (block without PKGNAME, bad dependency, bad location) and hard I/O errors must fail the whole read - never a partial or shifted list.",
         note="The generator stays inside the property's grammar (no blanks between key and '=', no CR, ASCII white space only at line/value edges). After an early EOF that cuts an ALL_DEPENDS / PKG_LOCATION value the oracle only requires the records before the cut record to be right, or Err.",
     ),
     "C17": dict(
         category="exploration",
         design_ref="DESIGN.md 3.8",
         technique="deterministic simulation with document-corruption and seam faults over the library's end-to-end pipelines, with panic and step-budget monitors",
-        text="Scoped claim: valid pbulk-index, package-database, distinfo and pkg_summary documents are corrupted in storage or in flight (bit flip, span drop/duplication, splice, truncation, NUL, non-UTF-8, long lines, huge numbers) and pushed through the library's documented pipelines over the scripted reader/writer/file-system seams; arbitrary Summary call histories run under hostile hash seeds. Any panic, any seam-call budget overrun and any single library call exceeding a very generous wall-clock bound is a violation.",
+        text="Scoped claim: valid pbulk-index, package-database, distinfo and pkg_summary documents are corrupted in storage or in flight (bit flip, span drop/duplication, splice, truncation, NUL, non-UTF-8, long lines, huge numbers) and pushed through five end-to-end pipelines (bulk scan -> dependency resolution; package database -> pkg_summary; distinfo -> verification; Summary call histories; pkg_summary stream -> dependency resolution) over the scripted reader/writer/file-system seams under hostile hash seeds. Any panic, any seam-call budget overrun, any run that does not finish within a generous wall-clock bound when re-executed alone in a child process, and any run that kills the process (found by bisecting the batch in child processes) is a violation.",
         note="Not input fuzzing of every entry point: only entry points reached by the four pipelines are covered, listed with call/Ok/Err counts in the evidence; unreached ones are listed as not covered. PkgDB::open's read_dir().expect() needs EACCES/EIO and is out of reach without an FS seam.",
     ),
     "C20": dict(
         category="exploration",
         design_ref="DESIGN.md 3.7",
         technique="deterministic simulation with crash-point injection on the package-database directory tree and an installer interleaved with the iterator",
-        text="Per run a scratch package database is built from a seeded configuration: 0..8 package directories whose installs are crash-interrupted after j of their '+' files in a per-run write order, stray files, empty/missing/plain-file database paths; in a third of the runs a simulated installer adds or removes '+' files between next() calls. The multiset of yielded packages must equal the model's complete directories (changed-during-iteration ones may go either way), with pkgbase/pkgversion split at the last '-', read_metadata returning the stored content, and the MetadataEntry<->filename table a bijection (enumerated completely).",
+        text="Per run a scratch package database is built from a seeded configuration: 0..8 package directories whose installs are crash-interrupted after j of their '+' files in a per-run write order, stray files, empty/missing/plain-file database paths; other files in package directories; in a third of the runs a simulated installer adds or removes '+' files between next() calls; the iterator is polled again after it finished. The multiset of yielded packages must equal the model's complete directories (changed-during-iteration ones may go either way), with pkgbase/pkgversion split at the last '-', read_metadata returning the stored content, and the MetadataEntry<->filename table a bijection (enumerated completely).",
         note="The kernel file system is real; readdir order is the one nondeterminism the harness does not own, so every oracle touching it compares as a multiset. Checks run as root: permission faults cannot be produced. Names without '-' or non-UTF-8 names are only checked for 'no panic, others still listed once'.",
     ),
 }
